@@ -986,3 +986,341 @@ theorem intRanges_of_parse (s : Str) (l : List Nat) (h : parseIntList s = some l
     simp
 
 end C14
+
+namespace C14
+
+/-! ## explicit specification of "sorted list of the distinct members" -/
+
+/-- the sorted list of the distinct integers of `L`, written down directly -/
+def sortDedup (L : List Nat) : List Nat := (List.range (lmax L + 1)).filter fun x => L.contains x
+
+theorem foldl_max_ge (a : Nat) (l : List Nat) : a ≤ l.foldl max a ∧ ∀ y ∈ l, y ≤ l.foldl max a := by
+  induction l generalizing a with
+  | nil => simp
+  | cons b bs ih =>
+    simp only [List.foldl_cons]
+    have := ih (max a b)
+    refine ⟨by omega, fun y hy => ?_⟩
+    simp only [List.mem_cons] at hy
+    rcases hy with rfl | hy
+    · omega
+    · exact this.2 y hy
+
+theorem le_lmax (L : List Nat) (x : Nat) (h : x ∈ L) : x ≤ lmax L := by
+  cases L with
+  | nil => simp at h
+  | cons a as =>
+    simp only [lmax]
+    simp only [List.mem_cons] at h
+    rcases h with rfl | h
+    · exact (foldl_max_ge _ as).1
+    · exact (foldl_max_ge a as).2 x h
+
+theorem sortDedup_sorted (L : List Nat) : (sortDedup L).Pairwise (· < ·) :=
+  List.Pairwise.filter _ List.pairwise_lt_range
+
+theorem mem_sortDedup (L : List Nat) (x : Nat) : x ∈ sortDedup L ↔ x ∈ L := by
+  simp only [sortDedup, List.mem_filter, List.mem_range, List.contains_eq_mem, decide_eq_true_eq]
+  constructor
+  · exact fun h => h.2
+  · exact fun h => ⟨by have := le_lmax L x h; omega, h⟩
+
+/-- strictly increasing lists with the same members are equal -/
+theorem sorted_ext (A B : List Nat) (hA : A.Pairwise (· < ·)) (hB : B.Pairwise (· < ·))
+    (h : ∀ x, x ∈ A ↔ x ∈ B) : A = B := by
+  induction A generalizing B with
+  | nil =>
+    cases B with
+    | nil => rfl
+    | cons b bs => have := (h b).mpr (by simp); simp at this
+  | cons a as ih =>
+    cases B with
+    | nil => have := (h a).mp (by simp); simp at this
+    | cons b bs =>
+      have ⟨ha1, ha2⟩ := List.pairwise_cons.mp hA
+      have ⟨hb1, hb2⟩ := List.pairwise_cons.mp hB
+      have hab : a = b := by
+        have h1 := (h a).mp (by simp)
+        have h2 := (h b).mpr (by simp)
+        simp only [List.mem_cons] at h1 h2
+        rcases h1 with h1 | h1
+        · exact h1
+        · rcases h2 with h2 | h2
+          · exact h2.symm
+          · have := hb1 a h1; have := ha1 b h2; omega
+      subst hab
+      congr 1
+      apply ih bs ha2 hb2
+      intro x
+      have hx := h x
+      simp only [List.mem_cons] at hx
+      constructor
+      · intro hxa
+        have := ha1 x hxa
+        rcases hx.mp (Or.inr hxa) with rfl | h'
+        · omega
+        · exact h'
+      · intro hxb
+        have := hb1 x hxb
+        rcases hx.mpr (Or.inr hxb) with rfl | h'
+        · omega
+        · exact h'
+
+/-! ## canonical run lists are unique -/
+
+theorem covers_cons (r : Nat × Nat) (rs : List (Nat × Nat)) (x : Nat) :
+    Covers (r :: rs) x ↔ (r.1 ≤ x ∧ x ≤ r.2) ∨ Covers rs x := by
+  simp [Covers]
+
+theorem canon_cons (r : Nat × Nat) (rs : List (Nat × Nat)) :
+    Canon (r :: rs) ↔ r.1 ≤ r.2 ∧ (∀ s ∈ rs, r.2 + 2 ≤ s.1) ∧ Canon rs := by
+  simp only [Canon, List.pairwise_cons, List.mem_cons, forall_eq_or_imp]
+  constructor
+  · rintro ⟨⟨h1, h2⟩, h3, h4⟩; exact ⟨h1, h3, h2, h4⟩
+  · rintro ⟨h1, h3, h2, h4⟩; exact ⟨⟨h1, h2⟩, h3, h4⟩
+
+theorem canon_unique (A B : List (Nat × Nat)) (hA : Canon A) (hB : Canon B)
+    (h : ∀ x, Covers A x ↔ Covers B x) : A = B := by
+  induction A generalizing B with
+  | nil =>
+    cases B with
+    | nil => rfl
+    | cons b bs =>
+      have hb := ((canon_cons b bs).mp hB).1
+      have := (h b.1).mpr ((covers_cons b bs b.1).mpr (Or.inl ⟨Nat.le_refl _, hb⟩))
+      simp [Covers] at this
+  | cons a as ih =>
+    cases B with
+    | nil =>
+      have ha := ((canon_cons a as).mp hA).1
+      have := (h a.1).mp ((covers_cons a as a.1).mpr (Or.inl ⟨Nat.le_refl _, ha⟩))
+      simp [Covers] at this
+    | cons b bs =>
+      obtain ⟨ha1, ha2, ha3⟩ := (canon_cons a as).mp hA
+      obtain ⟨hb1, hb2, hb3⟩ := (canon_cons b bs).mp hB
+      obtain ⟨al, ah⟩ := a
+      obtain ⟨bl, bh⟩ := b
+      simp only at ha1 ha2 hb1 hb2
+      -- every covered point is ≥ the head's low end
+      have geA : ∀ x, Covers ((al, ah) :: as) x → al ≤ x := by
+        intro x hx
+        rcases (covers_cons _ _ _).mp hx with h1 | ⟨s, hs, h1, _⟩
+        · exact h1.1
+        · have := ha2 s hs; omega
+      have geB : ∀ x, Covers ((bl, bh) :: bs) x → bl ≤ x := by
+        intro x hx
+        rcases (covers_cons _ _ _).mp hx with h1 | ⟨s, hs, h1, _⟩
+        · exact h1.1
+        · have := hb2 s hs; omega
+      have hlo : al = bl := by
+        have h1 := geB al ((h al).mp ((covers_cons _ _ _).mpr (Or.inl ⟨Nat.le_refl _, ha1⟩)))
+        have h2 := geA bl ((h bl).mpr ((covers_cons _ _ _).mpr (Or.inl ⟨Nat.le_refl _, hb1⟩)))
+        omega
+      subst hlo
+      -- a point just above the head's high end is not covered
+      have gapA : ¬ Covers ((al, ah) :: as) (ah + 1) := by
+        intro hx
+        rcases (covers_cons _ _ _).mp hx with h1 | ⟨s, hs, h1, _⟩
+        · simp at h1; omega
+        · have := ha2 s hs; omega
+      have gapB : ¬ Covers ((al, bh) :: bs) (bh + 1) := by
+        intro hx
+        rcases (covers_cons _ _ _).mp hx with h1 | ⟨s, hs, h1, _⟩
+        · simp at h1; omega
+        · have := hb2 s hs; omega
+      have hhi : ah = bh := by
+        rcases Nat.lt_trichotomy ah bh with hlt | heq | hgt
+        · exact absurd ((h (ah + 1)).mpr ((covers_cons _ _ _).mpr (Or.inl ⟨by simp; omega, by simp; omega⟩))) gapA
+        · exact heq
+        · exact absurd ((h (bh + 1)).mp ((covers_cons _ _ _).mpr (Or.inl ⟨by simp; omega, by simp; omega⟩))) gapB
+      subst hhi
+      congr 1
+      apply ih bs ha3 hb3
+      intro x
+      have hx := h x
+      rw [covers_cons, covers_cons] at hx
+      simp only at hx
+      constructor
+      · intro hc
+        obtain ⟨s, hs, h1, h2⟩ := hc
+        have := ha2 s hs
+        rcases hx.mp (Or.inr ⟨s, hs, h1, h2⟩) with h' | h'
+        · omega
+        · exact h'
+      · intro hc
+        obtain ⟨s, hs, h1, h2⟩ := hc
+        have := hb2 s hs
+        rcases hx.mpr (Or.inr ⟨s, hs, h1, h2⟩) with h' | h'
+        · omega
+        · exact h'
+
+end C14
+
+namespace C14
+
+/-! ## delim_space=True -/
+
+/-- the pieces `s.split(',')` sees when the separator was `", "` -/
+def spaceTail : List Str → List Str
+  | [] => []
+  | t :: ts => t :: ts.map (' ' :: ·)
+
+theorem join_space (toks : List Str) : join [',', ' '] toks = join [','] (spaceTail toks) := by
+  induction toks with
+  | nil => rfl
+  | cons a r ih =>
+    cases r with
+    | nil => rfl
+    | cons b r' =>
+      simp only [spaceTail, List.map_cons, join] at ih ⊢
+      cases r' with
+      | nil => simp [join]
+      | cons c r'' =>
+        simp only [join, List.map_cons] at ih ⊢
+        simp only [List.append_assoc, List.cons_append, List.nil_append] at ih ⊢
+        rw [ih]
+
+theorem strip_cons_ws (c : Char) (s : Str) (hc : isWs c = true) (hs : ∀ x ∈ s, isWs x = false) (hne : s ≠ []) :
+    strip (c :: s) = s := by
+  unfold strip
+  have h1 : (c :: s).dropWhile isWs = s := by
+    simp only [List.dropWhile, hc]; exact dropWhile_none s hs
+  rw [h1, dropWhile_none s.reverse (by simpa using hs)]; simp
+
+theorem pyInt_space_toDigits (n : Nat) : pyInt? (' ' :: toDigits n) = some n := by
+  have h := pyInt_toDigits n
+  unfold pyInt? at h ⊢
+  rw [strip_cons_ws ' ' _ (by decide) (fun c hc => digit_not_ws (toDigits_digits n c hc)) (toDigits_ne_nil n)]
+  rw [strip_id _ (fun c hc => digit_not_ws (toDigits_digits n c hc))] at h
+  exact h
+
+theorem parseTok_space_render (r : Nat × Nat) (h : r.1 ≤ r.2) :
+    parseTok (' ' :: renderRange r) = some (rangeIncl r.1 r.2) := by
+  obtain ⟨lo, hi⟩ := r
+  simp only at h
+  have hno := fun n => toDigits_no n '-' (by decide)
+  unfold renderRange
+  split
+  · rename_i he
+    simp only at he; subst he
+    simp [parseTok, hno lo, pyInt_space_toDigits, rangeIncl]
+  · have h1 : (' ' :: (toDigits lo ++ '-' :: toDigits hi)).contains '-' = true := by simp
+    simp only [parseTok, h1, if_true]
+    have : ' ' :: (toDigits lo ++ '-' :: toDigits hi) = (' ' :: toDigits lo) ++ '-' :: toDigits hi := by simp
+    rw [this, splitOn_append '-' _ _ (by simp [hno lo]), splitOn_none '-' _ (hno hi)]
+    simp only [mapM?, pyInt_toDigits, pyInt_space_toDigits, lmin, lmax, List.foldl_cons, List.foldl_nil]
+    rw [Nat.min_eq_left h, Nat.max_eq_right h]
+
+theorem mapM?_spaceTail (rs : List (Nat × Nat)) (h : ∀ r ∈ rs, r.1 ≤ r.2) :
+    mapM? parseTok (spaceTail (rs.map renderRange)) = some (rs.map fun r => rangeIncl r.1 r.2) := by
+  cases rs with
+  | nil => rfl
+  | cons r rs' =>
+    simp only [List.map_cons, spaceTail, mapM?, parseTok_render r (h r (by simp))]
+    rw [List.map_map]
+    have := mapM?_map parseTok ((' ' :: ·) ∘ renderRange) (fun r => rangeIncl r.1 r.2) rs'
+      (fun x hx => parseTok_space_render x (h x (by simp [hx])))
+    rw [this]
+
+theorem head_not_ws_strip (s : Str) (c d : Char) (m : Str) (hs : s = c :: m ++ [d])
+    (hc : isWs c = false) (hd : isWs d = false) : strip s = s := by
+  subst hs
+  unfold strip
+  have h1 : (c :: m ++ [d]).dropWhile isWs = c :: m ++ [d] := by simp [List.dropWhile, hc]
+  rw [h1]
+  have h2 : (c :: m ++ [d]).reverse = d :: (c :: m).reverse := by simp
+  rw [h2]
+  simp [List.dropWhile, hd]
+
+/-- first and last character exist and are not blanks -/
+def GoodEnds (s : Str) : Prop :=
+  (∃ c, s.head? = some c ∧ isWs c = false) ∧ (∃ d, s.getLast? = some d ∧ isWs d = false)
+
+theorem strip_goodEnds (s : Str) (h : GoodEnds s) : strip s = s := by
+  obtain ⟨⟨c, hc, hcw⟩, ⟨d, hd, hdw⟩⟩ := h
+  unfold strip
+  have h1 : s.dropWhile isWs = s := by
+    cases s with
+    | nil => rfl
+    | cons a as => simp at hc; subst hc; simp [List.dropWhile, hcw]
+  rw [h1]
+  have h2 : s.reverse.dropWhile isWs = s.reverse := by
+    have : s.reverse.head? = some d := by rw [List.head?_reverse]; exact hd
+    cases hr : s.reverse with
+    | nil => rfl
+    | cons a as => rw [hr] at this; simp at this; subst this; simp [List.dropWhile, hdw]
+  rw [h2]; simp
+
+theorem goodEnds_of_all (s : Str) (hne : s ≠ []) (h : ∀ c ∈ s, isWs c = false) : GoodEnds s := by
+  constructor
+  · cases s with
+    | nil => exact absurd rfl hne
+    | cons a as => exact ⟨a, rfl, h a (by simp)⟩
+  · cases hl : s.getLast? with
+    | none => simp at hl; exact absurd hl hne
+    | some d => exact ⟨d, rfl, h d (List.mem_of_getLast? hl)⟩
+
+theorem goodEnds_append (a m b : Str) (ha : GoodEnds a) (hb : GoodEnds b) : GoodEnds (a ++ m ++ b) := by
+  obtain ⟨⟨c, hc, hcw⟩, _⟩ := ha
+  obtain ⟨_, ⟨d, hd, hdw⟩⟩ := hb
+  constructor
+  · refine ⟨c, ?_, hcw⟩
+    cases a with
+    | nil => simp at hc
+    | cons x xs => simpa using hc
+  · refine ⟨d, ?_, hdw⟩
+    cases hb' : b with
+    | nil => rw [hb'] at hd; simp at hd
+    | cons x xs =>
+      rw [hb'] at hd
+      simp [List.getLast?_append] at *
+      simp [hd]
+
+theorem goodEnds_join (sep : Str) (toks : List Str) (hne : toks ≠ []) (h : ∀ t ∈ toks, GoodEnds t) :
+    GoodEnds (join sep toks) := by
+  induction toks with
+  | nil => exact absurd rfl hne
+  | cons a r ih =>
+    cases r with
+    | nil => simpa [join] using h a (by simp)
+    | cons b r' =>
+      simp only [join]
+      exact goodEnds_append _ _ _ (h a (by simp)) (ih (by simp) (fun t ht => h t (by simp [ht])))
+
+theorem goodEnds_render (r : Nat × Nat) : GoodEnds (renderRange r) := by
+  apply goodEnds_of_all
+  · unfold renderRange; split
+    · exact toDigits_ne_nil _
+    · simp
+  · exact renderRange_chars r
+
+theorem spaceTail_no_comma (rs : List (Nat × Nat)) : ∀ t ∈ spaceTail (rs.map renderRange), ',' ∉ t := by
+  intro t ht
+  cases rs with
+  | nil => simp [spaceTail] at ht
+  | cons r rs' =>
+    simp only [List.map_cons, spaceTail, List.mem_cons, List.mem_map] at ht
+    rcases ht with rfl | ⟨t', ⟨r', -, rfl⟩, rfl⟩
+    · exact renderRange_no_comma r
+    · have := renderRange_no_comma r'
+      simp [this]
+
+theorem parse_render_space (rs : List (Nat × Nat)) (h : ∀ r ∈ rs, r.1 ≤ r.2) :
+    parseIntList (join [',', ' '] (rs.map renderRange)) = some (isort (expand rs)) := by
+  unfold parseIntList
+  cases rs with
+  | nil => simp [join, strip, splitOn, mapM?, parseTok, expand, isort]
+  | cons r rs' =>
+    rw [strip_goodEnds _ (goodEnds_join _ _ (by simp) (by
+      intro t ht; simp only [List.mem_map] at ht; obtain ⟨r, -, rfl⟩ := ht; exact goodEnds_render r))]
+    rw [join_space, splitOn_join ',' _ (by simp [spaceTail]) (spaceTail_no_comma _), mapM?_spaceTail _ h]
+    rfl
+
+theorem parse_format_space (l : List Nat) :
+    parseIntList (formatIntList l true) = some (expand (runs (isort l))) := by
+  have hc := (runs_isort_spec l).1
+  have : formatIntList l true = join [',', ' '] ((runs (isort l)).map renderRange) := by
+    simp [formatIntList, fmtTokens_eq]
+  rw [this, parse_render_space _ hc.1, isort_id _ (lt_imp_le_pairwise (expand_sorted _ hc))]
+
+end C14
